@@ -59,20 +59,20 @@ theorem local_commit_sig_order (a b : Key) (hab : a ≠ b) (x : Ctx) (hx : x.tap
 /-- **second_level_valid**, HTLC-timeout transaction of an offered HTLC. -/
 theorem second_level_timeout_valid (c : Close) (expiry : Nat) (payHash : Item) :
     c.valid .htlcTimeoutTx expiry payHash (.num 0) = true := by
-  obtain ⟨⟨tweakless, anchors, zf, lease, taproot⟩, me, init, csv, lexp, height⟩ := c
+  obtain ⟨⟨tweakless, anchors, zf, lease, taproot, tfinal⟩, me, init, csv, lexp, height⟩ := c
   cases anchors <;> simp [csvOk_one]
 
 /-- **second_level_valid**, HTLC-success transaction of a received HTLC with the
     preimage of the payment hash. -/
 theorem second_level_success_valid (c : Close) (expiry p : Nat) :
     c.valid .htlcSuccessTx expiry (.h160 (.pre p)) (.pre p) = true := by
-  obtain ⟨⟨tweakless, anchors, zf, lease, taproot⟩, me, init, csv, lexp, height⟩ := c
+  obtain ⟨⟨tweakless, anchors, zf, lease, taproot, tfinal⟩, me, init, csv, lexp, height⟩ := c
   cases anchors <;> simp [csvOk_one]
 
 /-- the success transaction as produced at close time (no preimage yet) is not valid. -/
 theorem second_level_success_needs_preimage (c : Close) (expiry p : Nat) :
     c.valid .htlcSuccessTx expiry (.h160 (.pre p)) (.num 0) = false := by
-  obtain ⟨⟨tweakless, anchors, zf, lease, taproot⟩, me, init, csv, lexp, height⟩ := c
+  obtain ⟨⟨tweakless, anchors, zf, lease, taproot, tfinal⟩, me, init, csv, lexp, height⟩ := c
   have h1 : me ≠ 1 - me := by omega
   have h2 : 1 - me ≠ me := by omega
   cases anchors
@@ -84,7 +84,7 @@ theorem second_level_success_needs_preimage (c : Close) (expiry p : Nat) :
 /-- a wrong preimage does not work either. -/
 theorem second_level_success_wrong_preimage (c : Close) (expiry p q : Nat) (h : q ≠ p) :
     c.valid .htlcSuccessTx expiry (.h160 (.pre p)) (.pre q) = false := by
-  obtain ⟨⟨tweakless, anchors, zf, lease, taproot⟩, me, init, csv, lexp, height⟩ := c
+  obtain ⟨⟨tweakless, anchors, zf, lease, taproot, tfinal⟩, me, init, csv, lexp, height⟩ := c
   have h' : p ≠ q := fun e => h e.symm
   cases anchors <;> simp [h, h']
 
@@ -94,7 +94,7 @@ theorem second_level_success_wrong_preimage (c : Close) (expiry p q : Nat) (h : 
 theorem delayed_outputs_valid (c : Close) (s : Spend) (hs : s = .toLocal ∨ s = .secondLevelOut)
     (hseq : c.csv ≠ seqFinal) :
     c.valid s 0 (.num 0) (.num 0) = true := by
-  obtain ⟨⟨tweakless, anchors, zf, lease, taproot⟩, me, init, csv, lexp, height⟩ := c
+  obtain ⟨⟨tweakless, anchors, zf, lease, taproot, tfinal⟩, me, init, csv, lexp, height⟩ := c
   rcases hs with rfl | rfl <;> cases lease <;> cases init <;>
     simp [csvOk_self, cltvOk_self, hseq] <;> simp_all [cltvOk_self]
 
@@ -108,20 +108,20 @@ theorem delayed_output_early_invalid (rev delay : Key) (csv seq lock : Nat) (sg 
 /-- **remote_commit_spends_valid**, our to-remote output in all its variants. -/
 theorem to_remote_valid (c : Close) :
     c.valid .toRemote 0 (.num 0) (.num 0) = true := by
-  obtain ⟨⟨tweakless, anchors, zf, lease, taproot⟩, me, init, csv, lexp, height⟩ := c
+  obtain ⟨⟨tweakless, anchors, zf, lease, taproot, tfinal⟩, me, init, csv, lexp, height⟩ := c
   cases tweakless <;> cases anchors <;> cases lease <;> cases init <;>
     simp [csvOk_one, cltvOk_self_seq0, cltvOk_self_seq1]
 
 /-- **remote_commit_spends_valid**, claim of a received HTLC with the preimage. -/
 theorem remote_htlc_claim_valid (c : Close) (expiry p : Nat) :
     c.valid .htlcClaim expiry (.h160 (.pre p)) (.pre p) = true := by
-  obtain ⟨⟨tweakless, anchors, zf, lease, taproot⟩, me, init, csv, lexp, height⟩ := c
+  obtain ⟨⟨tweakless, anchors, zf, lease, taproot, tfinal⟩, me, init, csv, lexp, height⟩ := c
   cases anchors <;> simp [csvOk_one]
 
 /-- **remote_commit_spends_valid**, timeout of an offered HTLC at locktime = expiry. -/
 theorem remote_htlc_timeout_valid (c : Close) (expiry : Nat) (payHash : Item) :
     c.valid .htlcTimeout expiry payHash (.num 0) = true := by
-  obtain ⟨⟨tweakless, anchors, zf, lease, taproot⟩, me, init, csv, lexp, height⟩ := c
+  obtain ⟨⟨tweakless, anchors, zf, lease, taproot, tfinal⟩, me, init, csv, lexp, height⟩ := c
   cases anchors <;> simp [csvOk_one, cltvOk_self_seq0, cltvOk_self_seq1]
 
 /-- before the expiry an offered HTLC cannot be timed out on the peer's commitment. -/
@@ -129,7 +129,7 @@ theorem remote_htlc_timeout_early_invalid (c : Close) (expiry lock seq : Nat) (p
     (h : lock < expiry) :
     run { version := 2, sequence := seq, lockTime := lock, tapscript := false }
       (c.script .htlcTimeout expiry payHash) (c.witness .htlcTimeout (.num 0)) = false := by
-  obtain ⟨⟨tweakless, anchors, zf, lease, taproot⟩, me, init, csv, lexp, height⟩ := c
+  obtain ⟨⟨tweakless, anchors, zf, lease, taproot, tfinal⟩, me, init, csv, lexp, height⟩ := c
   cases anchors <;> simp [cltvOk_early _ _ _ _ _ h]
 
 /-- our anchor is spendable at once with the funding key. -/
@@ -150,6 +150,25 @@ theorem all_spends_valid (c : Close) (expiry p : Nat) (hseq : c.csv ≠ seqFinal
   ⟨delayed_outputs_valid c _ (Or.inl rfl) hseq, delayed_outputs_valid c _ (Or.inr rfl) hseq,
    second_level_timeout_valid c _ _, second_level_success_valid c _ _, to_remote_valid c,
    remote_htlc_claim_valid c _ _, remote_htlc_timeout_valid c _ _, anchor_valid c⟩
+
+/-- **simple-taproot channels** (anchor-style, not leased; staging and final
+    scripts): every script-path spend the node holds satisfies its tapscript leaf.
+    The final variants end in `<n> OP_CSV` / `<expiry> OP_CLTV`, whose operand
+    stays on the stack as the result - hence `0 < csv` and `0 < expiry`. -/
+theorem taproot_spends_valid (c : Close) (s : Spend) (expiry p : Nat)
+    (ha : c.ct.anchors = true) (hl : c.ct.lease = false)
+    (hcsv : c.csv ≠ 0) (hexp : expiry ≠ 0) :
+    c.tapValid s expiry (.h160 (.pre p)) (.pre p) = true := by
+  obtain ⟨⟨tweakless, anchors, zf, lease, taproot, tfinal⟩, me, init, csv, lexp, height⟩ := c
+  simp only at ha hl hcsv
+  subst ha hl
+  have t1 := truthy_num csv hcsv
+  have t2 := truthy_num expiry hexp
+  cases s <;> cases tfinal <;> cases tweakless <;>
+    simp [Close.tapValid, Close.tapScript, Close.tapWitness, Close.tapCtx, tapDelayLeaf,
+      tapSenderTimeoutLeaf, tapSenderSuccessLeaf, tapReceiverSuccessLeaf, tapReceiverTimeoutLeaf,
+      opVerify, csvOk_self, csvOk_one, cltvOk_self_seq1, t1, t2] <;>
+    first | exact truthy_num _ hcsv | exact truthy_num _ hexp
 
 /-- **correct sighash per channel type**: the peer's HTLC signature the witness
     carries has `SIGHASH_SINGLE|ANYONECANPAY` exactly on anchor channels. -/
